@@ -267,6 +267,42 @@ def _real_bk(rng, n):
     return dict(cases=cases, failures=fails, distinct=cases, refused=refused)
 
 
+@unit("C22", "BKVectors.from_kpoints: every search option reaches the shell search; shells, neighbours and grid coordinates are handed to the object", expect_min=3,
+      scope="shape:stub shell search / neighbour search with their contracts; option values different from every default")
+def _from_kpoints(U):
+    import types
+    rec = {}
+
+    class Cls:
+        def __init__(self, **kw):
+            self.kw = kw
+
+        @classmethod
+        def find_bk_vectors(cls, recip_lattice, mp_grid, **kw):
+            rec["shells"] = (recip_lattice, mp_grid, kw)
+            return "WK", "BKCART", "BKGRID"
+
+        @classmethod
+        def find_G_and_neighbours(cls, kpoints_red, bk_grid, mp_grid, **kw):
+            rec["nb"] = (kpoints_red, bk_grid, mp_grid, kw)
+            return "G", "NEIGH"
+    f = U.fn(F, "BKVectors.from_kpoints", globs=dict(np=rnp), model=False, rewrite_comps=False)
+
+    def body():
+        rl = rnp.array([[1.0, 0.2, 0], [0, 1.1, 0], [0.3, 0, 0.9]])
+        mp = rnp.array([2, 3, 1])
+        kp = rnp.array([[0.0, 0, 0], [0.5, 1 / 3, 0], [0.5, 2 / 3, 0], [1.5, -1 / 3, 2.0]])
+        obj = f(Cls, rl, mp, kp, kmesh_tol=3e-6, bk_complete_tol=7e-4, search_supercell=5, kptirr="IRR")
+        U.ensure("the shell search gets the lattice, the mesh and ALL THREE options as given (tolerances and the size of the search box)",
+                 rec["shells"][0] is rl and rec["shells"][1] is mp and rec["shells"][2] == dict(kmesh_tol=3e-6, bk_complete_tol=7e-4, search_supercell=5))
+        U.ensure("the neighbour search gets the k-points, the shells found and the mesh (and the irreducible set)", rec["nb"][0] is kp and rec["nb"][1] == "BKGRID" and rec["nb"][2] is mp and rec["nb"][3] == dict(kptirr="IRR"))
+        kw = obj.kw
+        U.ensure("the object holds the weights, shells, neighbours and G of the two searches and the integer grid coordinates of the k-points (not folded)",
+                 kw.get("wk") == "WK" and kw.get("bk_grid") == "BKGRID" and kw.get("G") == "G" and kw.get("neighbours") == "NEIGH" and kw.get("recip_lattice") is rl and kw.get("mp_grid") is mp
+                 and kw.get("kptirr") == "IRR" and rnp.array_equal(kw.get("kpt_grid"), [[0, 0, 0], [1, 1, 0], [1, 2, 0], [3, -1, 2]]))
+    U.run(body, check_feasible=False)
+
+
 Unit("C22", "from_kpoints [real lattices]", concrete=_real_bk,
      bounded_desc="installed BKVectors.from_kpoints (k-points shuffled and shifted by lattice vectors) on 4 (quick) / 9 (thorough) Bravais lattices x 2 (4) meshes, two non-orthogonal reciprocal lattices with anisotropic meshes, slightly distorted orthorhombic / tetragonal lattices, Gamma-only and slab meshes of non-reduced cells and search_supercell=1: "
                   "completeness <= 1e-5, -b closure with equal weights, whole shells, bk_cart = bk_grid x basis, k+b = k_nb+G; a documented refusal ('could not find a complete set') counts as no result")
